@@ -117,7 +117,15 @@ def banded(draw, tier, base=True):
         dth, dtc = draw(st.sampled_from([0.0, 2.5, 5.0])), draw(st.sampled_from([0.0, 2.5, 5.0]))
         q = draw(G.duty())
         off = draw(st.sampled_from([0.0, 0.0, 30.0, 80.0]))  # 0: matched band; > 0: the cold twin lies below (surplus cascades down)
-        case["streams"].append({"zone": zone, "name": "Hb", "t_supply": a + span + dth, "t_target": a + dth, "heat_flow": q, "dt_cont": dth, "htc": 1.0})
+        if draw(st.booleans()):
+            # the hot side of the band is two parallel streams (0.7 + 0.1 vs 0.8): the residual closes on a float residue, not on 0.0
+            f = draw(st.sampled_from([0.875, 0.7, 0.3, 0.1, 0.6]))
+            case["streams"].append({"zone": zone, "name": "Hb1", "t_supply": a + span + dth, "t_target": a + dth, "heat_flow": round(q * f, 6), "dt_cont": dth, "htc": 1.0})
+            case["streams"].append({"zone": zone, "name": "Hb2", "t_supply": a + span + dth, "t_target": a + dth, "heat_flow": round(q - round(q * f, 6), 6), "dt_cont": dth, "htc": 1.0})
+            # the cold twin carries the exact decimal sum (0.7 + 0.1 -> 0.8), which the float sum of the two CPs misses by an ulp
+            q = float(Fr(repr(round(q * f, 6))) + Fr(repr(round(q - round(q * f, 6), 6))))
+        else:
+            case["streams"].append({"zone": zone, "name": "Hb", "t_supply": a + span + dth, "t_target": a + dth, "heat_flow": q, "dt_cont": dth, "htc": 1.0})
         case["streams"].append({"zone": zone, "name": "Cb", "t_supply": a - off - dtc, "t_target": a - off + span - dtc, "heat_flow": q, "dt_cont": dtc, "htc": 1.0})
     return case
 
